@@ -16,7 +16,8 @@
 (* and ThreadPool::execute = Sender::send      \* Submit                    *)
 (*                                                                         *)
 (* One action per critical section of the code.  Task behaviours:           *)
-(*   "instant" returns at once; "rdv" blocks until N rendezvous tasks are   *)
+(*   "instant" returns at once; "panic" fails internally (unwinds);         *)
+(*   "rdv" blocks until N rendezvous tasks are                              *)
 (*   running together (a reusable barrier of N parties); "long" returns     *)
 (*   when its environment lets it.                                          *)
 (*                                                                         *)
@@ -32,7 +33,8 @@ CONSTANTS N,          \* pool size
           Kind,       \* [1..T -> {"instant", "rdv", "long"}]
           HoldLock,   \* mutant: lock released only when the job returns
           OneShot,    \* mutant: a worker leaves its loop after one job
-          Spawned     \* number of worker threads actually created (N in the real code)
+          Spawned,    \* number of worker threads actually created (N in the real code)
+          Guarded     \* a job that fails internally (kind "panic") does not end its worker (FALSE: no unwind guard)
 
 NONE == 0                       \* "no worker" / "no task"
 Worker == 1..N
@@ -111,7 +113,7 @@ CanFinish(w) ==
 Finish(w) ==
     /\ pc[w] = "running" /\ CanFinish(w)
     /\ fin' = [fin EXCEPT ![cur[w]] = TRUE]
-    /\ pc' = [pc EXCEPT ![w] = IF OneShot THEN "exited" ELSE "idle"]
+    /\ pc' = [pc EXCEPT ![w] = IF OneShot \/ (Kind[cur[w]] = "panic" /\ ~Guarded) THEN "exited" ELSE "idle"]
     /\ cur' = [cur EXCEPT ![w] = NONE]
     /\ lock' = IF HoldLock /\ lock = w THEN NONE ELSE lock
     /\ UNCHANGED <<queue, next, runs, arrived, arr>>
@@ -168,5 +170,7 @@ EventuallyShortDone == <>ShortDone
 NoIdleStarvation    == []<>~(queue # <<>> /\ lock = NONE /\ \E w \in Worker : pc[w] = "idle")
 \* up to N simultaneously: some reachable state has N running tasks (checked as a violated invariant in MC_Pool)
 NotAllRunning       == ~(\A w \in Worker : pc[w] = "running")
+\* C06 at the level of the pool: no past task permanently removes a worker
+NoWorkerLost        == \A w \in Worker : w <= Spawned => pc[w] # "exited"
 
 =============================================================================
